@@ -1396,8 +1396,12 @@ class Staircase(Pbox):
         """
 
         if self.straddles_zero():
-            warnings.warn(
-                "Division of a pbox straddling zero needs attention", UserWarning
+            # 1/x is unbounded on a support that contains zero in its interior.  When every step
+            # straddles zero the two reciprocal arrays come out inverted everywhere, the
+            # whole-array switch of the constructor "repairs" them and the gap between the two
+            # branches (e.g. [-1, 0.5] for 1/[-1, 2]) would be returned as if it were the result.
+            raise ZeroDivisionError(
+                "reciprocal of a p-box that straddles zero is unbounded"
             )
         return Staircase(left=1 / np.flip(self.right), right=1 / np.flip(self.left))
 
